@@ -18,7 +18,7 @@
    document level (bundles) of both formats (JsonSpec.read (encode_doc d) = content d) is stated and decided per run
    by executing the extracted readers on the implementation's real output. *)
 From Coq Require Import String List Bool ZArith.
-From Prov Require Import Str Sexp Tables Spec TablesOK Nsm NsmProofs Values Record World Jtree Json JsonProofs JsonSpec Xml XmlProofs XmlSpec SpecProofs JsonRecProofs SpecRecProofs JsonContProofs SpecContProofs XmlLabel XmlRec XmlRecProofs.
+From Prov Require Import Str Sexp Tables Spec TablesOK Nsm NsmProofs Values Record World Jtree Json JsonProofs JsonSpec Xml XmlProofs XmlSpec SpecProofs JsonRecProofs SpecRecProofs JsonContProofs SpecContProofs XmlLabel XmlRec XmlRecProofs XmlScope XmlDocProofs JsonBundleProofs SpecDocProofs.
 Import ListNotations.
 Open Scope string_scope.
 
@@ -250,3 +250,64 @@ Example C10_spec_reader_reads_model_output :
                     L [A "http://www.w3.org/ns/prov#entity"; L [A "qn"; A "http://e/a"]];
                     L [A "http://www.w3.org/ns/prov#time"; L [A "time"; A "2012-03-31T09:21:00"; A "60"]]]]]]).
 Proof. vm_compute. reflexivity. Qed.
+
+(* ---- PROV-XML, document level.  xml_document: the whole tree the model of serialize() builds — the document
+   element with the prefix map of XmlScope.nsmap_of, one element per record, then one bundleContent per bundle with
+   prov:id, its own prefix map and its records (tied to the tree the implementation writes on every run).  rec_reads:
+   the element written for a record in its container's scope is read by the specification as c (C10_xml_record gives
+   it: C10_xml_record_reads); bundle_reads: the bundle's prov:id resolves, in the bundle's scope, to u and its records
+   read as rcs.  Then the specification's reader reads the tree as the document's content: its records in order, then
+   every bundle under the URI of its identifier. *)
+Theorem C10_xml_record_reads : forall ft fl scope r label rest ic,
+  lookup (rkind r) prov_base_cls = Some (rkind r) -> rkind r <> "Membership" ->
+  NoDup (formal_attrs (rkind r) ++ five) ->
+  record_label (rkind r) (attributes r) = Some (label, rest) ->
+  Forall (fun kv => canon_prov (fst kv)) rest ->
+  Forall (PairXml ft fl scope (formal_attrs (rkind r))) rest ->
+  match rid r with
+  | Some q => resolve_uri scope (qn_str q) = Some (qn_uri q) /\ ic = A (qn_uri q)
+  | None => ic = A "none"
+  end ->
+  exists sub, rec_reads ft fl scope r
+    (L [A "rec"; A (spec_prov_uri ++ rkind r); ic; L (map pair_content (sorted_pairs (rkind r) rest) ++ sub_content sub)]).
+Proof. exact record_reads. Qed.
+
+Theorem C10_xml_document : forall ft fl d cs bcs,
+  let dm := bns (dmain d) in
+  Forall2 (rec_reads ft fl (nsmap_of dm dm)) (brecs (dmain d)) cs ->
+  Forall2 (fun kb bc => bundle_reads ft fl dm (snd kb) bc) (dbundles d) bcs ->
+  exists x, xml_document fl d = Some x /\
+            XmlSpec.read ft x = Some (L (A "content" :: L (A "bundle" :: A "" :: cs) :: bcs)).
+Proof. exact xml_document_read. Qed.
+Print Assumptions C10_xml_document.
+
+Example C10_xml_document_applies :
+  exists x, xml_document false xd_doc = Some x /\
+    XmlSpec.read [] x
+    = Some (L [A "content";
+               L [A "bundle"; A ""; L [A "rec"; A (spec_prov_uri ++ "Entity"); A "http://e/e";
+                                       L [L [A "http://e/k"; L [A "int"; A "5"]]]]];
+               L [A "bundle"; A "http://e/b"; L [A "rec"; A (spec_prov_uri ++ "Agent"); A "http://e/ag"; L []]]]).
+Proof. exact xml_document_applies. Qed.
+
+(* ---- PROV-JSON, document level: the specification's reader applied to the whole tree the library writes — the main
+   container's members, then the "bundle" map with one member per bundle — recovers the document's records (grouped
+   order) and every bundle's records under the URI its key denotes in the bundle's scope (bundle_spec: the bundle's
+   prefix block read on top of the document's table gives the table the bundle's records meet spec_ok under, and the
+   key resolves there).  Keys of the bundle map pairwise different (the situation of finding C10-F4 otherwise). *)
+Theorem C10_json_document : forall ft d t xs,
+  read_prefixes builtin_ptable (pblock (dmain d)) = Some t ->
+  Forall (spec_ok ft t) (brecs (dmain d)) ->
+  NoDup (map (fun kb => bkey (snd kb)) (dbundles d)) ->
+  Forall2 (fun kb x => bundle_spec ft t (snd kb) x) (dbundles d) xs ->
+  JsonSpec.read ft (encode_doc d)
+  = Some (L (A "content" :: L (A "bundle" :: A "" :: map content_rec (grouped (brecs (dmain d))))
+              :: map (fun kbx => bundle_content (snd (fst kbx)) (snd kbx)) (combine (dbundles d) xs))).
+Proof. exact spec_json_document. Qed.
+Print Assumptions C10_json_document.
+
+Example C10_json_document_applies :
+  JsonSpec.read [] (encode_doc z_doc)
+  = Some (L (A "content" :: L (A "bundle" :: A "" :: map content_rec (grouped (brecs y_b)))
+             :: [L [A "bundle"; A "http://e/b1"; L [A "rec"; A (spec_prov_uri ++ "Entity"); A "http://e/e"; L []]]])).
+Proof. exact spec_json_document_applies. Qed.
